@@ -135,6 +135,8 @@ class C10(Prop):
             "prelude": gen.prelude(),
             # a second live connection in the same process (interleaved with this one, or blocked in a send)
             "companion": gen.companion(),
+            # connect() options that must not matter here
+            "copts_noise": gen.copts_noise(),
         })
 
     def enumerations(self, tier):
